@@ -233,7 +233,7 @@ def run(ctx: Ctx) -> int:
     q = ctx.quick
     events, index = [], []
     # ---- ops
-    r = ctx.tlc("MC_C19", 'SPECIFICATION Spec\nCONSTANT FAMILY = "ops"\nINVARIANT Synonyms\nCHECK_DEADLOCK FALSE\n', dump=True, name="ops x kinds x value_type x boundary resources")
+    r = ctx.tlc("MC_C19", 'SPECIFICATION Spec\nCONSTANT FAMILY = "%s"\nINVARIANT Synonyms\nCHECK_DEADLOCK FALSE\n' % ("ops" if q else "opsL"), dump=True, name="ops x kinds x value_type x boundary resources")
     ops = [(s["case"], s["exp"]) for s in read_dump(r.dump) if s["case"].get("op") not in ("none",)]
     for (case, exp), (text, bad) in zip(ops, pmap(_replay_op, ops)):
         for sig, c in bad:
@@ -258,7 +258,7 @@ def run(ctx: Ctx) -> int:
     ctx.cov["replayed_presence_cases"] = len(pres)
     ctx.sample({"case": ops[len(ops) // 2][0], "decision": ops[len(ops) // 2][1]})
     # ---- literals
-    r = ctx.tlc("MC_C19", 'SPECIFICATION Spec\nCONSTANT FAMILY = "strings"\nINVARIANT Synonyms\nCHECK_DEADLOCK FALSE\n', dump=True, name="policy strings")
+    r = ctx.tlc("MC_C19", 'SPECIFICATION Spec\nCONSTANT FAMILY = "%s"\nINVARIANT Synonyms\nCHECK_DEADLOCK FALSE\n' % ("strings" if q else "strings4"), dump=True, name="policy strings")
     strings = [s_of(s["case"]["s"]) for s in read_dump(r.dump) if s["case"].get("op") == "literal"]
     rng = random.Random(ctx.seed)
     strings += ["".join(chr(rng.choice([rng.randint(32, 126), 34, 39, 92, 10, 13, 9, 0xe9, 0x1f431, 0x2028])) for _ in range(rng.randint(1, 12))) for _ in range(200 if q else 5000)]
